@@ -982,3 +982,27 @@ Qed.
 (* the same two schedules with the lock: the reader blocks, the run cannot take that step *)
 Lemma locked_blocks_enclosing : run te_enclosing true (init vs_enclosing) sched_enclosing = None.
 Proof. vm_compute. reflexivity. Qed.
+
+(* shape 3 (the same recursive type built twice at once): type 0 = D{Self *D}.
+   goroutine 0: Load miss, Store placeholder e0
+   goroutine 1: Load miss, Store placeholder e1            (overwrites e0 in namedStructEncoderMap)
+   goroutine 0: the handler of Self loads e1 -- the OTHER goroutine's placeholder --, assigns e0, writes:
+                D in full through e0, the inner D through e1: class already defined, ZERO fields:
+                well-formed output that silently drops the inner value's fields *)
+Definition te_same : tenv := [[0]].
+Definition vs_same : list sval := [SV 0 [(0, SV 0 [])]; SV 0 [(0, SV 0 [])]].
+Definition sched_same : list thr := [0; 0; 1; 1] ++ repeat 0 6 ++ repeat 1 6.
+
+Lemma refuted_same :
+  exists st, run te_same false (init vs_same) sched_same = Some st /\
+             finished st = true /\
+             map out (threads st) = [[Full 0; Half 0]; [Full 0; Full 0]] /\
+             map out (threads st) <> map seq_out vs_same.
+Proof. eexists. split; [vm_compute; reflexivity|]. split; [reflexivity|]. split; [reflexivity|]. vm_compute. discriminate. Qed.
+
+Lemma wf_same : wf_tenv te_same /\ Forall (wf_val te_same) vs_same.
+Proof.
+  split.
+  - repeat constructor.
+  - repeat constructor; cbn; lia.
+Qed.
